@@ -593,7 +593,7 @@ func (f *STFS) OpenFile(name string, flag int, perm os.FileMode) (afero.File, er
 		return nil, config.ErrIsDirectory
 	}
 
-	return NewFile(
+	file := NewFile(
 		f.readOps,
 		f.writeOps,
 
@@ -612,7 +612,16 @@ func (f *STFS) OpenFile(name string, flag int, perm os.FileMode) (afero.File, er
 
 		f.onHeader,
 		f.log,
-	), nil
+	)
+
+	// `O_TRUNC` takes effect when the file is opened, not when it is first written to
+	if flags.Truncate && flags.Write && hdr.Typeflag != tar.TypeDir && hdr.Size > 0 {
+		if err := file.enterWriteMode(); err != nil {
+			return nil, err
+		}
+	}
+
+	return file, nil
 }
 
 func (f *STFS) Remove(name string) error {
